@@ -549,6 +549,30 @@ def check_fmthistory(case):
     return None
 
 
+def check_culture_case_history(case):
+    """`culturecase <Name> <name>`: what CultureInfo(name) is must not depend on whether the same culture was asked before
+    under another capitalisation (the culture-data cache is keyed by the lower-cased name), and a real culture name
+    must not come back as the invariant culture"""
+    import json
+    import os
+    import subprocess
+    import sys
+    _, first, name = case.split(" ")
+    here = os.path.dirname(os.path.abspath(__file__))
+
+    def child(a, b):
+        p = subprocess.run([sys.executable, os.path.join(here, "fresh_child.py"), "culture-case", a, b], capture_output=True, text=True,
+                           timeout=120, env=dict(os.environ, PYODA_REPO=str(common_repo())))
+        if p.returncode != 0:
+            raise RuntimeError("child interpreter failed: " + p.stderr[-300:])
+        return json.loads(p.stdout)
+    with_first, alone = child(first, name), child("-", name)
+    if with_first != alone:
+        return {"key": "culture-lookup-depends-on-earlier-capitalisation",
+                "what": f"CultureInfo({name!r}) is {alone} in a fresh process but {with_first} after CultureInfo({first!r}) was constructed first"}
+    return None
+
+
 def check_fixed_zone_history(case):
     """DateTimeZone.for_offset(o) is one object per offset with one id: the id must not depend on which culture was
     current when the process-wide fixed-zone cache was first filled (fresh interpreter: first use under the culture,
@@ -1111,6 +1135,8 @@ def run(ctx):
             check_cases("formatinfo.cache", [f"formatinfo {ctx.scale(520, 800)} {rng.randint(0, 10**6)}"], check_formatinfo)
             check_cases("fixed-zone.current-culture-history", ["fixedzone fi-FI 19800 20700 45 -3600", "fixedzone da-DK 1800 -12600 64799"],
                         check_fixed_zone_history)
+            check_cases("culture.name-case-history", ["culturecase Cs-CZ cs-CZ", "culturecase FR-fr fr-FR", "culturecase Ca-ES ca-ES", "culturecase CY-GB cy-GB"],
+                        check_culture_case_history)
             check_cases("formatinfo.history", [f"fmthist {rng.randint(0, 10**6)}" for _ in range(ctx.scale(2, 12))], check_fmthistory)
             ctx.evaluations += 620
         else:
@@ -1165,7 +1191,7 @@ def gen_calhist_one(ctx, cid, length):
 
 
 CHECKS = {"barrier": None, "calhist": check_calhist, "hebhist": check_hebhist, "zonehist": check_zonehist,
-          "formatinfo": check_formatinfo, "fmthist": check_fmthistory, "fixedzone": check_fixed_zone_history, "provider": check_provider, "thr": check_threads}
+          "formatinfo": check_formatinfo, "fmthist": check_fmthistory, "fixedzone": check_fixed_zone_history, "culturecase": check_culture_case_history, "provider": check_provider, "thr": check_threads}
 
 
 def replay_op(op, failure):
